@@ -1390,6 +1390,12 @@ class Interp:
         if isinstance(it, K):
             if isinstance(it.v, range):
                 if len(it.v) > self.MAX_UNROLL:
+                    cap = getattr(self, 'RANGE_CAP', None)
+                    if cap:
+                        # abstraction chosen by the rule: a long counted loop whose body does not use the counter is walked for its first
+                        # `cap` iterations and then left as exhausted (the exit after the last iteration exists for every count >= 1)
+                        self.range_capped = True
+                        return [K(x) for x in it.v[:cap]]
                     raise Fail(f'range of {len(it.v)} iterations')
                 return [K(x) for x in it.v]
             if isinstance(it.v, (list, tuple)):
